@@ -223,9 +223,32 @@ fn permutation_events(seed: u64, thorough: bool, cli: Option<&str>) -> Vec<J> {
     out
 }
 
+/// "runs" events through the CLI with JSON inputs holding records of many keys at several depths (also inside a function's
+/// captured scope): everything that shows the order of the keys must come out the same in every process
+fn input_order_events(cli: &str) -> Vec<J> {
+    let inputs = r#"{"cfg": {"zeta": 1, "alpha": 2, "mid": 3, "k9": 4, "b": 5, "yy": 6, "c": 7, "omega": 8}, "rows": [{"q": 1, "a": 2, "m": 3, "z": 4, "e": 5}], "deep": {"inner": {"n": 1, "d": 2, "x": 3, "h": 4, "s": 5, "t": 6}}}"#;
+    let progs = [
+        "output k = keys(inputs.cfg)\noutput v = values(inputs.cfg)\noutput e = entries(inputs.cfg)",
+        "output s = to_string(inputs.cfg)\noutput t = format(\"{}\", inputs.rows)",
+        "output sp = [...inputs.deep.inner]\noutput m = {...inputs.cfg, extra: 1}\noutput first = keys(inputs.rows[0])[0]",
+        "f = x => {...inputs.cfg, x}\noutput g = keys(f(1))\noutput whole = inputs",
+    ];
+    let mut out = vec![];
+    for prog in progs {
+        let run = || {
+            let o = std::process::Command::new("timeout").arg("20").arg(cli).arg("-i").arg(inputs).arg(prog).stdin(std::process::Stdio::null()).output();
+            match o { Ok(o) => format!("exit={:?} stdout={}", o.status.code(), String::from_utf8_lossy(&o.stdout).trim()), Err(e) => format!("spawn error {e}") }
+        };
+        let runs: Vec<J> = (0..6).map(|_| json!([run()])).collect();
+        out.push(json!({"ev":"runs","src":format!("-i <records of 5..8 keys> ; {}", prog.replace('\n', " ; ")),"inproc":[runs[0], runs[0]],"procs":runs}));
+    }
+    out
+}
+
 pub fn record(seed: u64, n: usize, cli: Option<&str>) -> Vec<J> {
     let mut r = Rng::new(seed);
     let mut out = permutation_events(seed, n > 500, cli);
+    if let Some(c) = cli { out.extend(input_order_events(c)); }
     // programs: random sessions in the statement vocabulary of C03, calls of C14, broadcasts of C11
     let c14 = crate::c14::record(seed + 1, n);
     let c11 = crate::c11::record(seed + 2, n);
